@@ -96,6 +96,7 @@ pub struct Pending {
     pub tag: Tag,
     pub corrupted: bool,
     pub net_dup: bool,
+    pub fields: Option<refparse::Fields>,
 }
 
 pub enum Step {
@@ -212,8 +213,11 @@ pub struct Server {
     pub held_log: Vec<(usize, Vec<(Ep, u8, Vec<String>)>)>,
 }
 
+/// Block option of a message object, decoded from its raw option bytes with
+/// the reference decoder (values longer than two bytes are invalid for the
+/// crate, which reads a 16-bit scalar).
 fn block_of(p: &Packet, o: CoapOption) -> Option<(u16, bool, u8)> {
-    p.get_first_option_as::<BlockValue>(o).and_then(|x| x.ok()).map(|b| (b.num, b.more, b.size_exponent))
+    p.get_first_option(o).filter(|v| v.len() <= 2).and_then(|v| refparse::block_decode(v)).map(|(n, m, s)| (n as u16, m, s))
 }
 
 pub fn szx_size(szx: u8) -> usize {
@@ -426,28 +430,17 @@ impl Server {
             return Step::Done(None);
         }
         // ---- parse ----------------------------------------------------
-        let parsed = if self.cfg.check_wire {
-            match check_parse(bytes, stats, &mut self.violations, shapes) {
-                None => {
-                    self.dead = true;
-                    self.push(arr);
-                    return Step::Done(None);
-                }
-                Some(r) => r,
+        // The C02 / C03 oracle runs at every parse point of every family.
+        let parsed = match check_parse(bytes, stats, &mut self.violations, shapes) {
+            None => {
+                self.dead = true;
+                self.push(arr);
+                return Step::Done(None);
             }
-        } else {
-            match guard(|| Packet::from_bytes(bytes)) {
-                Err(msg) => {
-                    self.violations.push(
-                        Violation::new("C03", "panic", format!("from_bytes panicked: {} on {}", msg, short(bytes))).with_sig(&format!("panic@{}", panic_site(&msg))),
-                    );
-                    self.dead = true;
-                    self.push(arr);
-                    return Step::Done(None);
-                }
-                Ok(r) => r.map_err(|_| ()),
-            }
+            Some(r) => r,
         };
+        // ground truth of what was delivered: the reference parser's view
+        let rf = refparse::accept(bytes);
         let packet = match parsed {
             Err(()) => {
                 stats.hit("srv.rejected-datagram");
@@ -458,23 +451,46 @@ impl Server {
             Ok(p) => p,
         };
         arr.parsed = true;
-        arr.mtype = mtype_num(packet.header.get_type());
-        arr.code = u8::from(packet.header.code);
-        arr.mid = packet.header.message_id;
-        arr.token = packet.get_token().to_vec();
-        arr.block1 = block_of(&packet, CoapOption::Block1);
-        arr.block2 = block_of(&packet, CoapOption::Block2);
-        arr.payload = packet.payload.clone();
-        arr.req_overhead = overhead_of(&packet);
-        let version = packet.header.get_version();
-        let req_type = packet.header.get_type();
-        let req_token = packet.get_token().to_vec();
-        let req_mid = packet.header.message_id;
+        let clamp = |b: Option<(u32, bool, u8)>| b.map(|(n, m, s)| (n.min(u16::MAX as u32) as u16, m, s));
+        let (version, req_type, req_token, req_mid) = match &rf {
+            Some(f) => {
+                arr.mtype = f.mtype();
+                arr.code = f.code;
+                arr.mid = f.mid;
+                arr.token = f.token.clone();
+                // the crate reads block values of at most two bytes
+                arr.block1 = clamp(f.first_opt(27).filter(|v| v.len() <= 2).and_then(|v| refparse::block_decode(v)));
+                arr.block2 = clamp(f.first_opt(23).filter(|v| v.len() <= 2).and_then(|v| refparse::block_decode(v)));
+                arr.payload = f.payload.clone();
+                arr.req_overhead = bytes.len() - f.payload.len() - f.marker_pos.is_some() as usize;
+                let t = match f.mtype() {
+                    0 => MessageType::Confirmable,
+                    1 => MessageType::NonConfirmable,
+                    2 => MessageType::Acknowledgement,
+                    _ => MessageType::Reset,
+                };
+                (f.version(), t, f.token.clone(), f.mid)
+            }
+            None => {
+                // accepted although the grammar forbids it (already reported
+                // as C03/accepted-malformed): fall back to the crate's view
+                arr.mtype = mtype_num(packet.header.get_type());
+                arr.code = u8::from(packet.header.code);
+                arr.mid = packet.header.message_id;
+                arr.token = packet.get_token().to_vec();
+                arr.block1 = block_of(&packet, CoapOption::Block1);
+                arr.block2 = block_of(&packet, CoapOption::Block2);
+                arr.payload = packet.payload.clone();
+                arr.req_overhead = overhead_of(&packet);
+                (packet.header.get_version(), packet.header.get_type(), packet.get_token().to_vec(), packet.header.message_id)
+            }
+        };
 
         // ---- from_packet: C07 ----------------------------------------
         let mut req = CoapRequest::from_packet(packet, from);
         stats.hit("c07.from_packet");
         self.check_c07_prepared(&req, req_type, req_mid, &req_token, version, stats);
+        self.check_c07_error_shapes(&req, stats);
 
         let is_request_code = arr.code >= 1 && arr.code <= 31;
         let typed_ok = arr.mtype <= 1 || self.cfg.feed_all_types;
@@ -486,7 +502,10 @@ impl Server {
             return Step::Done(None);
         }
         arr.is_request = true;
-        let key: Key = (arr.code, raw_path(&req.message));
+        let key: Key = match &rf {
+            Some(f) => (arr.code, f.opt_values(11)),
+            None => (arr.code, raw_path(&req.message)),
+        };
         arr.key = Some(key.clone());
 
         // ---- intercept_request ---------------------------------------
@@ -522,7 +541,7 @@ impl Server {
             self.check_c11_growth(&arr, before, after, pending_err.is_some(), stats);
         }
 
-        let p = Box::new(Pending { arr, req, pending_err, req_mid, req_token, key, bytes: bytes.to_vec(), from, tag, corrupted, net_dup });
+        let p = Box::new(Pending { arr, req, pending_err, req_mid, req_token, key, bytes: bytes.to_vec(), from, tag, corrupted, net_dup, fields: rf });
         if p.arr.ireq == Some(HOut::Pass) {
             Step::NeedsApp(p)
         } else {
@@ -533,7 +552,7 @@ impl Server {
     /// Second phase: application, intercept_response, error rendering,
     /// serialisation of the reply.
     pub fn finish(&mut self, p: Pending, time: u64, stats: &mut Stats, trace: &mut Trace) -> Option<Vec<u8>> {
-        let Pending { mut arr, mut req, mut pending_err, req_mid, req_token, key, bytes, from, tag, corrupted, net_dup } = p;
+        let Pending { mut arr, mut req, mut pending_err, req_mid, req_token, key, bytes, from, tag, corrupted, net_dup, fields } = p;
         let bytes = &bytes[..];
         let seq = self.log.len();
         arr.time = arr.time.max(0);
@@ -607,7 +626,12 @@ impl Server {
             // C12/reply-ids: every reply carries the ids of the request
             // being answered
             stats.hit("c12.reply-ids.checked");
-            if r.message.header.message_id != req_mid || r.message.get_token() != &req_token[..] {
+            // decoded from the bytes that leave the server, by the reference parser
+            let (out_mid, out_token) = match refparse::accept(rb) {
+                Some(f) => (f.mid, f.token),
+                None => (r.message.header.message_id, r.message.get_token().to_vec()),
+            };
+            if out_mid != req_mid || out_token != req_token {
                 self.violations.push(Violation::new(
                     "C12",
                     "reply-ids",
@@ -615,12 +639,12 @@ impl Server {
                         "reply to mid={} token={} carries mid={} token={}",
                         req_mid,
                         crate::json::hex(&req_token),
-                        r.message.header.message_id,
-                        crate::json::hex(r.message.get_token())
+                        out_mid,
+                        crate::json::hex(&out_token)
                     ),
                 ));
             }
-            self.check_c10(&arr, &req, rb, from, &key, stats);
+            self.check_c10(&arr, &req, fields.as_ref(), rb, from, &key, stats);
             trace.ev(2, from as u64, rb);
         }
         trace.line(|| {
@@ -690,6 +714,47 @@ impl Server {
         }
     }
 
+    /// C07 quantifies over all HandlingError shapes: apply a few synthetic
+    /// ones to a clone of the freshly prepared request (which ones is a
+    /// function of the message id, so no choice is drawn).
+    fn check_c07_error_shapes(&mut self, req: &CoapRequest<Ep>, stats: &mut Stats) {
+        let mid = req.message.header.message_id as usize;
+        let shapes: [fn() -> HandlingError; 6] = [
+            HandlingError::not_handled,
+            HandlingError::not_found,
+            || HandlingError::bad_request("bad"),
+            || HandlingError::internal("boom"),
+            HandlingError::method_not_supported,
+            || HandlingError::with_code(ResponseType::ServiceUnavailable, ""),
+        ];
+        for k in 0..2 {
+            let e = shapes[(mid + k * 3) % shapes.len()]();
+            let mut r = req.clone();
+            // a reply that already carries something, as a handler may have set
+            if mid % 4 == 1 {
+                if let Some(resp) = r.response.as_mut() {
+                    resp.message.add_option(CoapOption::ETag, vec![1, 2, 3]);
+                    resp.message.payload = b"partial".to_vec();
+                }
+            }
+            let before = r.response.clone();
+            let e2 = e.clone();
+            let had_code = e.code.is_some();
+            match guard(|| r.apply_from_error(e)) {
+                Ok(ret) => {
+                    // a code-less error cannot be rendered; that is not a C11
+                    // matter here (the handler did not produce it)
+                    let n0 = self.violations.len();
+                    self.check_error_rendering(&before, &r, &e2, ret, had_code, stats);
+                    let added = self.violations.split_off(n0);
+                    self.violations.extend(added.into_iter().filter(|v| v.prop != "C11"));
+                    stats.hit("c07.error-shapes.checked");
+                }
+                Err(msg) => self.violations.push(Violation::new("C07", "error-result", format!("apply_from_error panicked: {}", msg))),
+            }
+        }
+    }
+
     fn check_error_rendering(&mut self, before: &Option<coap_lite::CoapResponse>, req: &CoapRequest<Ep>, e: &HandlingError, ret: bool, had_code: bool, stats: &mut Stats) {
         stats.hit("c07.apply_from_error");
         match (before, had_code) {
@@ -715,9 +780,9 @@ impl Server {
                 if Some(am.header.code) != e.code.map(MessageClass::Response) {
                     self.violations.push(Violation::new("C07", "error-result", format!("code after apply_from_error is {:#x}, error carried {:?}", code, e.code)));
                 }
-                if am.payload != e.message.as_bytes() {
-                    self.violations.push(Violation::new("C07", "error-result", "payload after apply_from_error is not the diagnostic message".into()));
-                }
+                // (the wording of the diagnostic payload is not part of the
+                // property: only that nothing but code, payload and
+                // content-format changes)
                 // only code, payload and content-format may differ
                 let strip = |p: &Packet| -> Vec<(u32, Vec<u8>)> { flat_opts(p).into_iter().filter(|(n, _)| *n != 12).collect() };
                 if strip(bm) != strip(am) {
@@ -789,7 +854,7 @@ impl Server {
     }
 
     /// C10 on every handler-produced reply whose own premise holds.
-    fn check_c10(&mut self, arr: &Arrival, req: &CoapRequest<Ep>, reply: &[u8], from: Ep, key: &Key, stats: &mut Stats) {
+    fn check_c10(&mut self, arr: &Arrival, req: &CoapRequest<Ep>, fields: Option<&refparse::Fields>, reply: &[u8], from: Ep, key: &Key, stats: &mut Stats) {
         let m = self.cfg.budget;
         let Some(resp) = req.response.as_ref() else { return };
         let rcode = u8::from(resp.message.header.code);
@@ -836,26 +901,25 @@ impl Server {
                     // the client's next upload block at the acknowledged size
                     if rcode == 0x5F && rs <= 6 {
                         let next_num = ((cn as usize + 1) * csize) / size;
-                        if next_num <= 0xFFF {
-                            let mut next = req.message.clone();
-                            next.clear_option(CoapOption::Block1);
-                            next.add_option_as(CoapOption::Block1, BlockValue { num: next_num as u16, more: true, size_exponent: rs });
-                            next.payload = vec![0x55; size];
-                            if let Ok(enc) = next.to_bytes_unlimited() {
-                                stats.hit("c10.b1ack.fits.checked");
-                                if enc.len() > m {
-                                    self.violations.push(Violation::new("C10", "fits", format!("next upload block at acknowledged size {} encodes to {} > budget {}", size, enc.len(), m)));
-                                }
+                        if let (true, Some(f)) = (next_num <= 0xFFF, fields) {
+                            // the client's next block: the same request with
+                            // the next Block1 value and a full block
+                            let mut opts: Vec<(u32, Vec<u8>)> = f.opts.iter().filter(|(n, _)| *n != 27).cloned().collect();
+                            opts.push((27, refparse::block_encode(next_num as u32, true, rs)));
+                            let enc = refparse::encode(f.version(), f.mtype(), f.code, f.mid, &f.token, &opts, &vec![0x55; size]);
+                            stats.hit("c10.b1ack.fits.checked");
+                            if enc.len() > m {
+                                self.violations.push(Violation::new("C10", "fits", format!("next upload block at acknowledged size {} encodes to {} > budget {}", size, enc.len(), m)));
                             }
                         }
                     }
                     let _ = rn;
                 } else if rcode == 0x8D && rs <= 6 {
                     // 4.13 with a size hint: block 0 at that size must fit
-                    let mut next = req.message.clone();
-                    next.add_option_as(CoapOption::Block1, BlockValue { num: 0, more: true, size_exponent: rs });
-                    next.payload = vec![0x55; size];
-                    if let Ok(enc) = next.to_bytes_unlimited() {
+                    if let Some(f) = fields {
+                        let mut opts: Vec<(u32, Vec<u8>)> = f.opts.clone();
+                        opts.push((27, refparse::block_encode(0, true, rs)));
+                        let enc = refparse::encode(f.version(), f.mtype(), f.code, f.mid, &f.token, &opts, &vec![0x55; size]);
                         stats.hit("c10.413.fits.checked");
                         if enc.len() > m {
                             self.violations.push(Violation::new("C10", "fits", format!("upload block 0 at hinted size {} encodes to {} > budget {}", size, enc.len(), m)));
@@ -951,21 +1015,11 @@ pub fn method_ord(code: u8) -> u8 {
 }
 
 pub fn describe_reply(b: &[u8]) -> String {
-    match Packet::from_bytes(b) {
-        Ok(p) => {
-            let c = u8::from(p.header.code);
-            format!(
-                "reply {}.{:02} mid={} tok={} b1={:?} b2={:?} pay={} len={}",
-                c >> 5,
-                c & 31,
-                p.header.message_id,
-                crate::json::hex(p.get_token()),
-                block_of(&p, CoapOption::Block1),
-                block_of(&p, CoapOption::Block2),
-                p.payload.len(),
-                b.len()
-            )
+    match refparse::accept(b) {
+        Some(p) => {
+            let c = p.code;
+            format!("reply {}.{:02} mid={} tok={} b1={:?} b2={:?} pay={} len={}", c >> 5, c & 31, p.mid, crate::json::hex(&p.token), p.block(27), p.block(23), p.payload.len(), b.len())
         }
-        Err(_) => format!("reply (unparseable) len={}", b.len()),
+        None => format!("reply (unparseable) len={}", b.len()),
     }
 }
